@@ -4,7 +4,7 @@
 seeds=${@:-1}
 mkdir -p /tmp/seed
 for d in ${MUTANTS:-/verif/seeded/*/}; do d=/verif/seeded/$(basename $d)/
-  m=$(basename $d); prop=${m%%-*}
+  m=$(basename $d); prop=${m%%-*}; [ "$m" = retired ] && continue
   c=$(bash /verif/tools/confirm_mutant.sh $m 2>&1 | tail -1)
   echo "CONFIRM $c"
   for s in $seeds; do
